@@ -1286,7 +1286,13 @@ func (fv *FuncVerifier) verifyUnit(lit *ast.FuncLit) {
 		}
 	}
 	// no loop has run to its normal exit yet (ghosts done<k>, readable in postconditions)
-	for _, ord := range fv.loops {
+	for ls, ord := range fv.loops {
+		if lit != nil && !(ls.Pos() >= lit.Pos() && ls.End() <= lit.End()) {
+			// a literal verified as a unit does not know how far the ENCLOSING function's loops have come: unconstrained
+			// (a callback invariant may state `done<k>`: established where the walk starts, kept by the literal)
+			st.ghost[fmt.Sprintf("done%d", ord)] = fv.fresh(fmt.Sprintf("done%d", ord), SBool)
+			continue
+		}
 		st.ghost[fmt.Sprintf("done%d", ord)] = False
 	}
 	delete(fv.epochAlloc, st.epoch)
